@@ -10,8 +10,12 @@ package main
 
 import (
 	"fmt"
+	"go/constant"
 	"go/token"
 	"go/types"
+	"os"
+	"sort"
+	"strings"
 
 	"golang.org/x/tools/go/ssa"
 )
@@ -106,6 +110,34 @@ func checkScannerProgress(w *World, r *Report) {
 			if !isHead {
 				continue
 			}
+			// natural loop of h; the test must be the loop's exit test (one successor outside)
+			body := map[*ssa.BasicBlock]bool{h: true}
+			var stack []*ssa.BasicBlock
+			for _, p := range h.Preds {
+				if h.Dominates(p) && !body[p] {
+					body[p] = true
+					stack = append(stack, p)
+				}
+			}
+			for len(stack) > 0 {
+				b := stack[len(stack)-1]
+				stack = stack[:len(stack)-1]
+				for _, p := range b.Preds {
+					if !body[p] {
+						body[p] = true
+						stack = append(stack, p)
+					}
+				}
+			}
+			exits := false
+			for _, s := range h.Succs {
+				if !body[s] {
+					exits = true
+				}
+			}
+			if !exits {
+				continue
+			}
 			n++
 			construct := "every way round the scan loop stores the position"
 			// search: from the in-loop successors of h back to h through blocks that do not advance.
@@ -155,6 +187,21 @@ func checkScannerProgress(w *World, r *Report) {
 			full := byteSet{^uint64(0), ^uint64(0), ^uint64(0), ^uint64(0)}
 			refine := func(set byteSet, b *ssa.BasicBlock, i int) byteSet {
 				for _, cf := range edgeFacts(b, i) {
+					// a byte-class predicate of the package applied to the current byte
+					if c, ok := cf.v.(*ssa.Call); ok && len(c.Call.Args) == 1 && isCur(c.Call.Args[0]) {
+						if g := c.Call.StaticCallee(); g != nil && isTwigFn(g) {
+							if tab := bytePredTable(g); tab != nil {
+								var out byteSet
+								for x := 0; x < 256; x++ {
+									if set[x/64]&(1<<uint(x%64)) != 0 && tab[x] == cf.truth {
+										out[x/64] |= 1 << uint(x%64)
+									}
+								}
+								set = out
+							}
+						}
+						continue
+					}
 					bo, ok := cf.v.(*ssa.BinOp)
 					if !ok {
 						continue
@@ -220,24 +267,76 @@ func checkScannerProgress(w *World, r *Report) {
 			}
 			var path []string
 			type state struct {
-				b   *ssa.BasicBlock
-				set byteSet
+				b     *ssa.BasicBlock
+				set   byteSet
+				known string
+			}
+			// boolean phis (the && / || of a tagless switch's case expressions) whose value is
+			// fixed by the edge they were entered through
+			enter := func(known map[*ssa.Phi]bool, from, to *ssa.BasicBlock) map[*ssa.Phi]bool {
+				out := map[*ssa.Phi]bool{}
+				for k, v := range known {
+					out[k] = v
+				}
+				idx := -1
+				for i, p := range to.Preds {
+					if p == from {
+						idx = i
+					}
+				}
+				for _, in := range to.Instrs {
+					ph, ok := in.(*ssa.Phi)
+					if !ok {
+						break
+					}
+					delete(out, ph)
+					if idx < 0 {
+						continue
+					}
+					switch e := ph.Edges[idx].(type) {
+					case *ssa.Const:
+						if e.Value != nil && e.Value.Kind() == constant.Bool {
+							out[ph] = constant.BoolVal(e.Value)
+						}
+					case *ssa.Phi:
+						if v, ok := known[e]; ok {
+							out[ph] = v
+						}
+					}
+				}
+				return out
+			}
+			keyOf := func(known map[*ssa.Phi]bool) string {
+				var parts []string
+				for k, v := range known {
+					parts = append(parts, fmt.Sprintf("%s=%v", k.Name(), v))
+				}
+				sort.Strings(parts)
+				return strings.Join(parts, ",")
 			}
 			seen := map[state]bool{}
-			var dfs func(b *ssa.BasicBlock, set byteSet) bool
-			dfs = func(b *ssa.BasicBlock, set byteSet) bool {
+			var dfs func(b *ssa.BasicBlock, set byteSet, known map[*ssa.Phi]bool) bool
+			dfs = func(b *ssa.BasicBlock, set byteSet, known map[*ssa.Phi]bool) bool {
 				if set == (byteSet{}) {
 					return false
 				}
 				if b == h {
 					return true
 				}
-				if seen[state{b, set}] || advances(b) || !h.Dominates(b) {
+				st := state{b, set, keyOf(known)}
+				if seen[st] || advances(b) || !h.Dominates(b) {
 					return false
 				}
-				seen[state{b, set}] = true
+				seen[st] = true
 				for i, s := range b.Succs {
-					if dfs(s, refine(set, b, i)) {
+					if c, trueIdx, ok := ifCond(b); ok {
+						if ph, isPhi := c.(*ssa.Phi); isPhi {
+							if v, ok := known[ph]; ok && v != (i == trueIdx) {
+								continue
+							}
+						}
+					}
+					if dfs(s, refine(set, b, i), enter(known, b, s)) {
 						path = append(path, fmt.Sprint(b.Index))
 						return true
 					}
@@ -247,7 +346,7 @@ func checkScannerProgress(w *World, r *Report) {
 			bad := false
 			if !advances(h) {
 				for i, s := range h.Succs {
-					if dfs(s, refine(full, h, i)) {
+					if dfs(s, refine(full, h, i), enter(nil, h, s)) {
 						bad = true
 						break
 					}
@@ -259,6 +358,17 @@ func checkScannerProgress(w *World, r *Report) {
 					path[i], path[j] = path[j], path[i]
 				}
 				at := ""
+				if os.Getenv("TWIGCHECK_DEBUG") != "" {
+					for _, pi := range path {
+						for _, b := range fn.Blocks {
+							if fmt.Sprint(b.Index) == pi {
+								for _, in := range b.Instrs {
+									fmt.Fprintf(os.Stderr, "  [%s] %s  %s\n", pi, w.posOf(in.Pos()), in.String())
+								}
+							}
+						}
+					}
+				}
 				for _, b := range fn.Blocks {
 					if len(path) > 0 && fmt.Sprint(b.Index) == path[len(path)-1] {
 						for _, in := range b.Instrs {
@@ -275,4 +385,174 @@ func checkScannerProgress(w *World, r *Report) {
 		}
 	}
 	r.floor("scan loops governed by the tokenizer position", n, 3)
+}
+
+// bytePredTable: the truth table of a byte-class predicate of the package (`isDigit(c byte) bool`,
+// `isNameChar`, …), obtained by constant evaluation of its SSA for each of the 256 argument
+// values.  Only loop-free-in-effect bodies of comparisons, boolean connectives, integer
+// arithmetic and calls of other such predicates are evaluated (at most 400 steps); anything else
+// gives nil and the caller treats the predicate as unknown.
+var bytePredMemo = map[*ssa.Function]*[256]bool{}
+var bytePredBusy = map[*ssa.Function]bool{}
+
+func bytePredTable(g *ssa.Function) *[256]bool {
+	if t, ok := bytePredMemo[g]; ok {
+		return t
+	}
+	if bytePredBusy[g] || len(g.Blocks) == 0 || len(g.Params) != 1 || g.Signature.Results().Len() != 1 {
+		return nil
+	}
+	if b, ok := g.Params[0].Type().Underlying().(*types.Basic); !ok || b.Info()&types.IsInteger == 0 {
+		return nil
+	}
+	if b, ok := g.Signature.Results().At(0).Type().Underlying().(*types.Basic); !ok || b.Kind() != types.Bool {
+		return nil
+	}
+	bytePredBusy[g] = true
+	defer delete(bytePredBusy, g)
+	var table [256]bool
+	for x := 0; x < 256; x++ {
+		res, ok := evalPred(g, int64(x))
+		if !ok {
+			bytePredMemo[g] = nil
+			return nil
+		}
+		table[x] = res
+	}
+	bytePredMemo[g] = &table
+	return &table
+}
+
+type cval struct {
+	i    int64
+	b    bool
+	isB  bool
+	know bool
+}
+
+func evalPred(g *ssa.Function, x int64) (bool, bool) {
+	env := map[ssa.Value]cval{g.Params[0]: {i: x, know: true}}
+	get := func(v ssa.Value) cval {
+		if c, ok := v.(*ssa.Const); ok && c.Value != nil {
+			switch c.Value.Kind() {
+			case constant.Bool:
+				return cval{b: constant.BoolVal(c.Value), isB: true, know: true}
+			case constant.Int:
+				return cval{i: c.Int64(), know: true}
+			}
+			return cval{}
+		}
+		return env[v]
+	}
+	blk := g.Blocks[0]
+	var prev *ssa.BasicBlock
+	for steps := 0; steps < 400; steps++ {
+		var next *ssa.BasicBlock
+		for _, in := range blk.Instrs {
+			switch t := in.(type) {
+			case *ssa.Phi:
+				for i, p := range blk.Preds {
+					if p == prev {
+						env[t] = get(t.Edges[i])
+					}
+				}
+			case *ssa.BinOp:
+				a, b := get(t.X), get(t.Y)
+				if !a.know || !b.know {
+					return false, false
+				}
+				r := cval{know: true}
+				switch t.Op {
+				case token.EQL:
+					r.isB = true
+					if a.isB {
+						r.b = a.b == b.b
+					} else {
+						r.b = a.i == b.i
+					}
+				case token.NEQ:
+					r.isB = true
+					if a.isB {
+						r.b = a.b != b.b
+					} else {
+						r.b = a.i != b.i
+					}
+				case token.LSS:
+					r.isB, r.b = true, a.i < b.i
+				case token.LEQ:
+					r.isB, r.b = true, a.i <= b.i
+				case token.GTR:
+					r.isB, r.b = true, a.i > b.i
+				case token.GEQ:
+					r.isB, r.b = true, a.i >= b.i
+				case token.ADD:
+					r.i = a.i + b.i
+				case token.SUB:
+					r.i = a.i - b.i
+				case token.OR:
+					r.i = a.i | b.i
+				case token.AND:
+					r.i = a.i & b.i
+				case token.XOR:
+					r.i = a.i ^ b.i
+				default:
+					return false, false
+				}
+				if !r.isB {
+					if bt, ok := t.Type().Underlying().(*types.Basic); ok && (bt.Kind() == types.Uint8) {
+						r.i &= 0xff
+					}
+				}
+				env[t] = r
+			case *ssa.UnOp:
+				a := get(t.X)
+				if !a.know || t.Op != token.NOT {
+					return false, false
+				}
+				env[t] = cval{b: !a.b, isB: true, know: true}
+			case *ssa.Convert:
+				a := get(t.X)
+				if !a.know {
+					return false, false
+				}
+				env[t] = a
+			case *ssa.ChangeType:
+				env[t] = get(t.X)
+			case *ssa.Call:
+				h := t.Call.StaticCallee()
+				if h == nil || len(t.Call.Args) != 1 {
+					return false, false
+				}
+				a := get(t.Call.Args[0])
+				tab := bytePredTable(h)
+				if tab == nil || !a.know || a.i < 0 || a.i > 255 {
+					return false, false
+				}
+				env[t] = cval{b: tab[a.i], isB: true, know: true}
+			case *ssa.If:
+				c := get(t.Cond)
+				if !c.know {
+					return false, false
+				}
+				if c.b {
+					next = blk.Succs[0]
+				} else {
+					next = blk.Succs[1]
+				}
+			case *ssa.Jump:
+				next = blk.Succs[0]
+			case *ssa.Return:
+				c := get(t.Results[0])
+				return c.b, c.know && c.isB
+			case *ssa.DebugRef:
+			default:
+				return false, false
+			}
+		}
+		if next == nil {
+			return false, false
+		}
+		prev, blk = blk, next
+	}
+	return false, false
 }
